@@ -46,6 +46,7 @@ def plan(tier, seed):
     parts = 4 if tier == 'quick' else 12
     specs += [{'kind': 'idioms', 'part': i, 'parts': parts, 'tier': tier} for i in range(parts)]
     specs += [{'kind': 'scale', 'part': i, 'parts': 8, 'tier': tier} for i in range(8)]
+    specs += [{'kind': 'constlen', 'word': w} for w in (2, 3, 4, 8)]
     return specs
 
 
@@ -188,6 +189,55 @@ SCALE_SWEEPS = ('scale-locals/flat/33', 'scale-locals/flat/129', 'scale-locals/f
 
 def run_shard(spec):
     res = runner.new_result()
+    if spec['kind'] == 'constlen':
+        # dynamic arrays whose length is a compile-time constant at the boundaries of the size arithmetic of THIS word size (length * word
+        # leaves the signed / unsigned word): refused, stack_overflow, or an array that really has that many elements - M-SAN on the stores
+        word = spec['word']
+        bits = 8 * word
+        full, hi = 1 << bits, (1 << (bits - 1)) - 1
+        lens = sorted({2, 3, 9, hi // word, hi // word + 1, hi // word + 2, (full + word - 1) // word, (full + word - 1) // word + 1, full // word - 1, (full // 2) // word + 1,
+                       (2 * full) // word + 1, (3 * full) // word + 2, hi - 7, hi - 1, hi, (hi + 1) // 8, (hi + 1) // 8 + 1, full // 8 + 1})
+        for el in ('int', 'string', 'byte', 'bool'):
+            for n in lens:
+                if not (2 <= n <= hi):
+                    continue
+                for place in ('function', 'block', 'callee'):
+                    fill = {'int': ('7', '5'), 'string': ('"x"', '"yz"'), 'byte': ("'p'", "'q'"), 'bool': ('true', 'true')}[el]
+                    use = f'{el} a[{n}]; a[1] = {fill[0]}; a[0] = {fill[1]}; a[2 - 1] = {fill[0]}; write(a.length); write(\' \');'
+                    if place == 'function':
+                        body = use
+                    elif place == 'block':
+                        body = f'for (int k = 0; k < 2; k += 1) {{ {use} }}'
+                    else:
+                        body = 'inner(v.length);'
+                    src = (f'empty inner(int q) {{ {use} write(q); }}\n' if place == 'callee' else '') + \
+                        f'empty @is_you(const int[] v) {{\n    int[] b = [11, v.length, 33];\n    {body}\n    write(b[0]); write(b[1]); write(b[2]);\n}}\n'
+                    tag = f'constlen/{el}/{n}/{place}'
+                    r = diff.compile_and_run(src, ['1'], word=word, stack=diff.GENEROUS_STACK, max_steps=MAX_STEPS)
+                    res['evaluations'] += 1
+                    case = diff.case_dict(src, ['1'], word, diff.GENEROUS_STACK, gen=tag)
+                    if r.kind == 'reject':
+                        runner.count(res, 'constlen_rejected')
+                        continue
+                    if r.kind != 'ok':
+                        runner.fail(res, 'M-EXC' if r.kind == 'internal' else 'M-ASM', f'{tag}: {r.kind}: {r.detail}', case)
+                        continue
+                    o = r.outcome
+                    common.side_observe(res, r)
+                    san = [x for x in o.reports if x[1] == 'san']
+                    if san:
+                        runner.fail(res, 'M-SAN', f'{tag}: {san[0][2]} (asm line {san[0][4]})', case, observed=o.brief())
+                    elif o.klass in ('TRAP', 'HALT'):
+                        runner.fail(res, 'M-SAN', f'{tag}: {o.klass}: {o.trap or "committed halt"}', case, observed=o.brief())
+                    elif o.klass == 'ERROR:stack_overflow':
+                        runner.count(res, 'constlen_stack_overflow')
+                        res['nontrivial'].append(runner.case_id(src, word))
+                    elif o.klass == 'WIN' and o.out.split(b' ')[0] == str(n).encode() and o.out.endswith(b'11133'):
+                        runner.count(res, 'constlen_fits')
+                        res['nontrivial'].append(runner.case_id(src, word))
+                    else:
+                        runner.fail(res, 'M-PREFIX', f'{tag}: a {n}-element array at a {diff.GENEROUS_STACK}-word stack ends {o.klass} with output {o.out[:40]!r}: neither stack_overflow nor an array of that length with its neighbour intact', case, observed=o.brief())
+        return res
     if spec['kind'] == 'scale':
         # scale grids: frames of up to 257 locals, 65 parameters, arrays of up to 1000 elements, depth 10 - every access inside its own
         # object (M-SAN, generous stack, word sizes in rotation); the frame estimate of the largest ones is swept around S*
